@@ -395,6 +395,8 @@ pub struct World {
     last_touch: BTreeMap<u64, u64>,
     /// the application may reuse the id of a request in flight (focus c19dup)
     dup_ids: bool,
+    /// source address override for the next answer (an answer presented from another address)
+    answer_src: Option<SocketAddr>,
     /// sequence number of the record the application last supplied for a peer (who-are-you answer)
     known_seq: BTreeMap<(usize, SocketAddr), u64>,
     out_challenges: Vec<(usize, Vec<u8>, MessageNonce, u64, SocketAddr)>,
@@ -494,6 +496,7 @@ impl World {
             ttl_ms: 86_400_000,
             last_touch: BTreeMap::new(),
             dup_ids: false,
+            answer_src: None,
             known_seq: BTreeMap::new(),
             out_challenges: vec![],
             expired_challenges: vec![],
@@ -1648,6 +1651,10 @@ impl Runner {
             if acted {
                 self.w.failures.push(("C01".into(), "a handshake was accepted from a socket address that this node never challenged".into()));
                 self.w.failures.push(("C03".into(), "a handshake was accepted although no WHOAREYOU to exactly that source address was outstanding".into()));
+                // C02: the message inside is then handed over as coming from that other address
+                if self.steps[n_late..].iter().any(|s| s.outs.iter().any(|o| matches!(o, AOut::Request(..) | AOut::Response(..)))) {
+                    self.w.failures.push(("C02".into(), "a handshake datagram presented from another source address than the challenged one led to a delivered message (attributed to that address)".into()));
+                }
             }
             return;
         }
@@ -1777,7 +1784,7 @@ impl Runner {
         let (mut p, aad) = self.build(pi, rng.next() as u128, nonce, PacketKind::Message { src_id }, vec![]);
         p.message = toolkit_encrypt(&ek, nonce, &plain, &aad).unwrap();
         let bytes = wire_encode(&p, self.w.pid, &self.w.local_id);
-        let src = self.w.peers[pi].addr;
+        let src = self.w.answer_src.unwrap_or(self.w.peers[pi].addr);
         let n_out_before = self.steps.len();
         self.inject(src, bytes, "response", pi, false, None).await;
         // The request counts as answered if the handler could read the answer: external requests
@@ -1824,6 +1831,17 @@ impl Runner {
                 self.w.failures.push(("C03".into(), "a WHOAREYOU from another address than the one the request was sent to was acted on".into()));
                 if self.steps[n0..].iter().any(|s| s.outs.iter().any(|o| matches!(o, AOut::Established(..)))) {
                     self.w.failures.push(("C12".into(), "a node was reported as established because of a packet that did not come from the address its record advertises".into()));
+                }
+                // C02: the peer's answer, presented from that other address as well, must not be
+                // delivered (a session exists for the address the request went to, if at all)
+                if self.w.reqs[qi].external && !self.w.peers[pi].keys.is_empty() {
+                    let n1 = self.steps.len();
+                    self.w.answer_src = Some(src);
+                    self.net_answer(rng, FORCE + qi, 6).await;
+                    self.w.answer_src = None;
+                    if self.steps[n1..].iter().any(|s| s.outs.iter().any(|o| matches!(o, AOut::Response(..)))) {
+                        self.w.failures.push(("C02".into(), "a response presented from another source address than the one the request was sent to was delivered".into()));
+                    }
                 }
             }
         }
@@ -2189,6 +2207,19 @@ async fn run_case(seed: u64, idx: u64, focus: &str, thorough: bool, fixes: &str)
         }
         discv5::verif::filter::PERMIT_BAN_LIST.write().ban_ips.remove(&ip);
         moves.push(format!("scripted: session with peer {}, its address banned, a PING and a FINDNODE answered (NODES in three packets)", p));
+    }
+    // scripted opening: two handshakes in a row for one challenge, both signed by another node - the first
+    // attaches that node's own record (rejected, the challenge stays), the second attaches none (it must
+    // not be verified against the record the first one brought along)
+    if matches!(focus, "c01" | "c02") && npeers >= 2 && rng.chance(1, 6) {
+        let p = rng.below(npeers as u64) as usize;
+        let other = (p + 1) % npeers;
+        r.net_random(&mut rng, p).await;
+        r.app_answer_wru(0, *rng.pick(&[0u8, 1, 3])).await;
+        r.net_handshake(&mut rng, FORCE, HsVariant::ForgedWithOwnRecord(other)).await;
+        r.net_handshake(&mut rng, FORCE, HsVariant::ForgedNoRecord(other)).await;
+        r.w.hist.add("scripted:forged_handshake_with_record_then_without");
+        moves.push(format!("scripted: packet of peer {}, challenge, handshake signed by peer {} with its own record, then one without a record", p, other));
     }
     // scripted opening: a peer with a session sends forty requests, the application answers all of
     // them at once
